@@ -15,6 +15,8 @@ import (
 	uuid "github.com/satori/go.uuid"
 	"github.com/sirupsen/logrus"
 	"google.golang.org/grpc"
+	"google.golang.org/grpc/codes"
+	"google.golang.org/grpc/status"
 )
 
 // Shared harness helpers for package storage: stub gRPC clients (the client
@@ -38,6 +40,7 @@ type verifDMClient struct {
 	infoLen   map[string]uint64 // by partition id string
 	infoBytes map[string]uint64
 	infoFail  map[string]bool
+	infoFailStatus codes.Code
 	batchErrs map[string]string
 }
 
@@ -109,6 +112,10 @@ func (c *verifDMClient) PartitionInfo(ctx context.Context, in *pb.PartitionInfoR
 	c.rec("PartitionInfo", in.GetPartitionId(), nil, 0)
 	k := string(in.GetPartitionId())
 	if c.fail || c.infoFail[k] {
+		if c.infoFailStatus != 0 {
+			// a gRPC status error, as a real client returns them (e.g. Canceled: "the client connection is closing")
+			return nil, status.Error(c.infoFailStatus, "verif: remote failure")
+		}
 		return nil, errVerifRemote
 	}
 	if _, ok := c.infoLen[k]; !ok {
